@@ -1,11 +1,44 @@
-//! placeholder (scenario not built yet)
-use crate::session::Violation;
-use serde::{Deserialize, Serialize};
+//! Scenario `determinism` (C14): one project state compiled in several fresh processes
+//! that differ only in sources of nondeterminism the simulator owns: the process hash seed
+//! (LD_PRELOAD getrandom seam), the directory enumeration order (seam H7) and the order in
+//! which strings are interned (a seeded pre-interning of the project's identifiers before
+//! the compiler starts, which permutes the numeric order of intern ids). All
+//! configurations must produce byte-identical artifacts and identical diagnostics.
 
-#[derive(Serialize, Deserialize, Clone, Debug)]
-pub struct DetCase {
-    pub steps: Vec<u8>,
+use crate::cx::{self, View};
+use crate::session::Violation;
+use crate::world::{EdOp, World, DIRS};
+use intern::string_key::Intern;
+use isograph_compiler::verif_hooks;
+use serde::{Deserialize, Serialize};
+use simcore::Rng;
+use std::path::{Path, PathBuf};
+
+#[derive(Serialize, Deserialize, Clone, Debug, PartialEq, Eq, Hash)]
+pub struct DetConfig {
+    pub hash_seed: u64,
+    /// 0 = sorted enumeration; otherwise the seed of the permutation applied at seam H7
+    pub perm_seed: u64,
+    /// 0 = nothing; otherwise identifiers of the project are interned in this seeded order
+    /// before the compiler runs
+    pub preintern_seed: u64,
 }
+
+#[derive(Serialize, Deserialize, Clone, Debug, PartialEq, Eq, Hash)]
+pub enum Project {
+    /// files from the pool: (path index, snippet index), schema variant, extension variant
+    Pool { files: Vec<(usize, usize)>, schema: usize, ext: usize },
+    /// a checked-in demo project, copied to scratch
+    Demo(String),
+}
+
+#[derive(Serialize, Deserialize, Clone, Debug, PartialEq, Eq, Hash)]
+pub struct DetCase {
+    pub project: Project,
+    /// kept under "steps" so that the generic minimiser can drop configurations
+    pub steps: Vec<DetConfig>,
+}
+
 pub struct Outcome {
     pub violations: Vec<Violation>,
     pub counters: Vec<(String, u64)>,
@@ -13,13 +46,235 @@ pub struct Outcome {
     pub nontrivial: bool,
     pub configurations: u64,
 }
-pub fn generate(_seed: u64) -> DetCase {
-    DetCase { steps: vec![] }
+
+fn shim_path() -> PathBuf {
+    simcore::evidence::verif_root().join("preload").join("getrandom_shim.so")
 }
-pub fn run(_case: &DetCase, _tag: u64) -> Outcome {
-    Outcome { violations: vec![], counters: vec![], log: vec![], nontrivial: false, configurations: 0 }
-}
+
+/// Environment of every sim_world worker / child: deterministic hash seeds when the shim is built.
 pub fn worker_env() -> Vec<(String, String)> {
-    vec![]
+    let p = shim_path();
+    if p.is_file() {
+        vec![("LD_PRELOAD".into(), p.to_string_lossy().to_string()), ("VERIF_HASH_SEED".into(), "0".into())]
+    } else {
+        vec![]
+    }
 }
-pub fn child_main(_args: &[String]) {}
+
+fn copy_tree(from: &Path, to: &Path) {
+    let _ = std::fs::create_dir_all(to);
+    let mut entries: Vec<_> = std::fs::read_dir(from).into_iter().flatten().flatten().collect();
+    entries.sort_by_key(|e| e.path());
+    for e in entries {
+        let name = e.file_name();
+        let n = name.to_string_lossy();
+        if n == "node_modules" || n == "__isograph" || n == ".next" || n == "dist" {
+            continue;
+        }
+        let p = e.path();
+        if p.is_dir() {
+            copy_tree(&p, &to.join(&name));
+        } else {
+            let _ = std::fs::copy(&p, to.join(&name));
+        }
+    }
+}
+
+fn materialise(project: &Project, tag: u64) -> World {
+    match project {
+        Project::Pool { files, schema, ext } => {
+            let w = World::create(tag);
+            for d in [0usize, 1, 2, 3] {
+                let _ = std::fs::create_dir_all(w.abs(DIRS[d]));
+            }
+            for (p, s) in files {
+                w.apply(&EdOp::Write(*p, *s));
+            }
+            w.apply(&EdOp::WriteSchema(*schema));
+            w.apply(&EdOp::WriteExt(*ext));
+            w
+        }
+        Project::Demo(name) => {
+            let w = World::create(tag);
+            let _ = std::fs::remove_dir_all(&w.root);
+            copy_tree(&Path::new("/repo/demos").join(name), &w.root);
+            w
+        }
+    }
+}
+
+/// Identifier-like words of the project's sources and schema, deduplicated and sorted.
+fn identifiers(root: &Path) -> Vec<String> {
+    let mut words = std::collections::BTreeSet::new();
+    fn walk(dir: &Path, words: &mut std::collections::BTreeSet<String>, depth: usize) {
+        if depth > 8 {
+            return;
+        }
+        let mut entries: Vec<_> = std::fs::read_dir(dir).into_iter().flatten().flatten().map(|e| e.path()).collect();
+        entries.sort();
+        for p in entries {
+            if p.is_dir() {
+                if !p.ends_with("__isograph") && !p.ends_with("node_modules") {
+                    walk(&p, words, depth + 1);
+                }
+            } else if let Ok(text) = std::fs::read_to_string(&p) {
+                if text.len() > 400_000 {
+                    continue;
+                }
+                let mut cur = String::new();
+                for ch in text.chars() {
+                    if ch.is_alphanumeric() || ch == '_' {
+                        cur.push(ch);
+                    } else if !cur.is_empty() {
+                        if cur.len() <= 40 && words.len() < 6000 {
+                            words.insert(std::mem::take(&mut cur));
+                        } else {
+                            cur.clear();
+                        }
+                    }
+                }
+            }
+        }
+    }
+    walk(root, &mut words, 0);
+    words.into_iter().collect()
+}
+
+/// Entry point of a child process: compile the tree at --root under one configuration and
+/// print the canonical view as JSON.
+pub fn child_main(args: &[String]) {
+    let get = |name: &str| args.iter().position(|a| a == name).and_then(|i| args.get(i + 1).cloned());
+    let root = PathBuf::from(get("--root").unwrap_or_default());
+    let perm_seed: u64 = get("--perm").and_then(|s| s.parse().ok()).unwrap_or(0);
+    let preintern_seed: u64 = get("--preintern").and_then(|s| s.parse().ok()).unwrap_or(0);
+    let w = World { root };
+    cx::clear_hooks();
+    if preintern_seed != 0 {
+        let mut words = identifiers(&w.root);
+        Rng::new(preintern_seed).shuffle(&mut words);
+        for word in &words {
+            let _ = word.as_str().intern();
+        }
+    }
+    if perm_seed == 0 {
+        cx::install_sorted_enumeration();
+    } else {
+        verif_hooks::set_order_paths_hook(Some(Box::new(move |paths| {
+            paths.sort();
+            Rng::new(perm_seed).shuffle(paths);
+        })));
+    }
+    let view = cx::fresh_view(&w);
+    let out = match &view {
+        View::Artifacts(m) => serde_json::json!({"kind": "artifacts", "hash": format!("{:016x}", view.hash()),
+            "files": m.iter().map(|(k, v)| (k.clone(), format!("{:016x}", simcore::fnv1a(v)))).collect::<std::collections::BTreeMap<_, _>>() }),
+        View::Diagnostics(d) => serde_json::json!({"kind": "diagnostics", "hash": format!("{:016x}", view.hash()), "diagnostics": d}),
+    };
+    println!("{}", out);
+}
+
+fn run_child(w: &World, c: &DetConfig) -> Result<serde_json::Value, String> {
+    let exe = std::env::current_exe().unwrap();
+    let mut cmd = std::process::Command::new(exe);
+    cmd.arg("det-child")
+        .arg("--root")
+        .arg(&w.root)
+        .arg("--perm")
+        .arg(c.perm_seed.to_string())
+        .arg("--preintern")
+        .arg(c.preintern_seed.to_string())
+        .stdin(std::process::Stdio::null())
+        .stderr(std::process::Stdio::null());
+    let shim = shim_path();
+    if shim.is_file() {
+        cmd.env("LD_PRELOAD", &shim).env("VERIF_HASH_SEED", c.hash_seed.to_string());
+    }
+    let out = cmd.output().map_err(|e| format!("spawn: {e}"))?;
+    if !out.status.success() {
+        return Err(format!("compile process ended with {}", out.status));
+    }
+    let text = String::from_utf8_lossy(&out.stdout);
+    serde_json::from_str(text.lines().last().unwrap_or("")).map_err(|e| format!("bad child output: {e}"))
+}
+
+pub fn run(case: &DetCase, tag: u64) -> Outcome {
+    let w = materialise(&case.project, tag);
+    let mut out = Outcome { violations: vec![], counters: vec![], log: vec![], nontrivial: false, configurations: 0 };
+    let mut first: Option<(usize, serde_json::Value)> = None;
+    let mut c: std::collections::BTreeMap<String, u64> = Default::default();
+    for (i, cfg) in case.steps.iter().enumerate() {
+        out.configurations += 1;
+        if cfg.hash_seed != 0 {
+            *c.entry("fault.hash_seed_varied".into()).or_insert(0) += 1;
+        }
+        if cfg.perm_seed != 0 {
+            *c.entry("fault.enumeration_order_permuted".into()).or_insert(0) += 1;
+        }
+        if cfg.preintern_seed != 0 {
+            *c.entry("fault.interning_order_permuted".into()).or_insert(0) += 1;
+        }
+        match run_child(&w, cfg) {
+            Err(e) => {
+                out.violations.push(Violation { property: "C14", kind: "compile-process-died", detail: format!("configuration #{i} {cfg:?}: {e}"), step: i });
+                break;
+            }
+            Ok(v) => {
+                out.log.extend_from_slice(v["hash"].as_str().unwrap_or("").as_bytes());
+                if i == 0 {
+                    out.nontrivial = v["kind"] == "artifacts" || v["diagnostics"].as_array().map(|a| a.len() >= 2).unwrap_or(false);
+                }
+                match &first {
+                    None => first = Some((i, v)),
+                    Some((j, v0)) => {
+                        if v0["hash"] != v["hash"] {
+                            let detail = if v0["kind"] != v["kind"] {
+                                format!("configuration #{j} produced {} and configuration #{i} {cfg:?} produced {}", v0["kind"], v["kind"])
+                            } else if v["kind"] == "artifacts" {
+                                let a = v0["files"].as_object().cloned().unwrap_or_default();
+                                let b = v["files"].as_object().cloned().unwrap_or_default();
+                                let differ: Vec<&String> = a.iter().filter(|(k, h)| b.get(*k) != Some(h)).map(|(k, _)| k).chain(b.keys().filter(|k| !a.contains_key(*k))).take(4).collect();
+                                format!("artifacts differ between configuration #{j} and #{i} {cfg:?}: {differ:?}")
+                            } else {
+                                let a: Vec<String> = v0["diagnostics"].as_array().map(|x| x.iter().map(|s| s.as_str().unwrap_or("").lines().take(2).collect::<Vec<_>>().join(" | ")).collect()).unwrap_or_default();
+                                let b: Vec<String> = v["diagnostics"].as_array().map(|x| x.iter().map(|s| s.as_str().unwrap_or("").lines().take(2).collect::<Vec<_>>().join(" | ")).collect()).unwrap_or_default();
+                                format!("diagnostics differ between configuration #{j} and #{i} {cfg:?}: {a:?} vs {b:?}")
+                            };
+                            out.violations.push(Violation { property: "C14", kind: "output-depends-on-configuration", detail, step: i });
+                            break;
+                        }
+                    }
+                }
+            }
+        }
+    }
+    let _ = std::env::set_current_dir("/");
+    w.destroy();
+    out.counters = c.into_iter().collect();
+    out
+}
+
+/// the checked-in demos that are isograph projects (disposable-state-ajax-demo has no config)
+pub const DEMOS: [&str; 3] = ["pet-demo", "github-demo", "vite-demo"];
+
+pub fn generate(seed: u64) -> DetCase {
+    let mut rng = Rng::new(seed);
+    let project = if rng.chance(1, 12) {
+        Project::Demo(rng.pick(&DEMOS).to_string())
+    } else {
+        let n = rng.range(2, 7);
+        let files = (0..n)
+            .map(|_| (*rng.pick(&[0usize, 1, 2, 3, 4, 5, 6, 7, 8, 15]), crate::session::gen_snippet(&mut rng)))
+            .collect();
+        Project::Pool { files, schema: *rng.pick(&[0usize, 0, 0, 1, 1, 2, 3]), ext: *rng.pick(&[0usize, 0, 1, 2]) }
+    };
+    let k = rng.range(4, 6);
+    let mut steps = vec![DetConfig { hash_seed: 0, perm_seed: 0, preintern_seed: 0 }];
+    for _ in 1..k {
+        steps.push(DetConfig {
+            hash_seed: if rng.chance(3, 4) { rng.range(1, 1 << 40) } else { 0 },
+            perm_seed: if rng.chance(2, 3) { rng.range(1, 1 << 40) } else { 0 },
+            preintern_seed: if rng.chance(2, 3) { rng.range(1, 1 << 40) } else { 0 },
+        });
+    }
+    DetCase { project, steps }
+}
